@@ -3,4 +3,4 @@ import panelmat
 
 
 def run(tier, seed, build):
-    return panelmat.run_prop("C19", ["kA", "cA"], tier, seed, build, what="the piston-theory bilinear form")
+    return panelmat.run_prop("C19", ["kA", "cA", "kAmach"], tier, seed, build, what="the piston-theory bilinear form")
